@@ -478,6 +478,13 @@ class CFG:
                     if taken:
                         continue
                     matches = is_default or (lits is not None and sval in lits)
+                    if lits is None and not is_default:
+                        pm_ = pattern_matches(case.pattern, sval)
+                        if pm_ is not None:
+                            # a decidable structural pattern (tuple of
+                            # literals / wildcards / alternatives)
+                            matches = pm_
+                            lits = []      # decided: skip when no match
                     if matches and case.guard is not None:
                         # `case x if guard`: the capture is bound to the subject
                         env2 = dict(self.env)
@@ -655,6 +662,43 @@ def case_literals(pattern: ast.pattern) -> list[object] | None:
                 return None
             out += sub
         return out
+    return None
+
+
+def pattern_matches(pattern: ast.pattern, value: object) -> bool | None:
+    """Does a known constant value match the pattern? None: not decidable
+    (captures with sub-patterns, class / mapping patterns, star patterns)."""
+    if isinstance(pattern, ast.MatchValue) and isinstance(
+            pattern.value, ast.Constant):
+        return value == pattern.value.value and (
+            type(value) is type(pattern.value.value) or not isinstance(
+                value, bool))
+    if isinstance(pattern, ast.MatchSingleton):
+        return value is pattern.value
+    if isinstance(pattern, ast.MatchAs):
+        if pattern.pattern is None:
+            return True               # wildcard / bare capture
+        return pattern_matches(pattern.pattern, value)
+    if isinstance(pattern, ast.MatchOr):
+        res = [pattern_matches(p, value) for p in pattern.patterns]
+        if any(r is True for r in res):
+            return True
+        if all(r is False for r in res):
+            return False
+        return None
+    if isinstance(pattern, ast.MatchSequence):
+        if any(isinstance(p, ast.MatchStar) for p in pattern.patterns):
+            return None
+        if not isinstance(value, (tuple, list)):
+            return False
+        if len(value) != len(pattern.patterns):
+            return False
+        res = [pattern_matches(p, v) for p, v in zip(pattern.patterns, value)]
+        if any(r is False for r in res):
+            return False
+        if all(r is True for r in res):
+            return True
+        return None
     return None
 
 
